@@ -6,14 +6,6 @@
 // total order (asymmetric, total on distinct identities, transitive).
 // ---------------------------------------------------------------------------------------------
 
-// what an instance knows about one address after learning `u` (None: address unknown so far)
-spec fn join1<T: Identity>(m: Option<Member<T>>, u: Member<T>) -> Option<Member<T>> {
-    match m {
-        None => Some(u),                       // registration (Members::apply, O C01.register)
-        Some(m) => Some(apply_one(m, u, true).0), // O C01.apply
-    }
-}
-
 spec fn fold_join<T: Identity>(init: Option<Member<T>>, s: Seq<Member<T>>) -> Option<Member<T>>
     decreases s.len()
 {
@@ -133,20 +125,31 @@ proof fn lemma_fold_max<T: Identity>(init: Option<Member<T>>, s: Seq<Member<T>>)
     }
 }
 
+// same updates, whatever the order and the multiplicity
+spec fn has<T>(s: Seq<Member<T>>, x: Member<T>) -> bool { exists|j: int| 0 <= j < s.len() && s[j] == x }
+
+proof fn lemma_has<T>(s: Seq<Member<T>>, j: int)
+    requires 0 <= j < s.len()
+    ensures has(s, s[j])
+{
+}
+
+spec fn same_elems<T>(s: Seq<Member<T>>, t: Seq<Member<T>>) -> bool { forall|x: Member<T>| #[trigger] has(s, x) == has(t, x) }
+
 // L C01.order: two collections containing the same updates (any order, any multiplicity) give the same knowledge  [C01.order]
 proof fn lemma_c01_order_independent<T: Identity>(s: Seq<Member<T>>, t: Seq<Member<T>>)
     requires
         s.len() > 0,
-        forall|i: int| 0 <= i < s.len() ==> exists|j: int| 0 <= j < t.len() && t[j] == #[trigger] s[i],
-        forall|j: int| 0 <= j < t.len() ==> exists|i: int| 0 <= i < s.len() && s[i] == #[trigger] t[j],
+        same_elems(s, t),
         win_order(None, s),
     ensures
         same_knowledge(fold_join(None, s).unwrap(), fold_join(None, t).unwrap()), // [C01.order]
 {
     let ini = None::<Member<T>>; let ss = s;
-    assert(t.len() > 0) by { let j = choose|j: int| 0 <= j < t.len() && t[j] == s[0]; }
+    assert(t.len() > 0) by { lemma_has(s, 0); assert(has(t, s[0])); }
     assert forall|id: T| in_ids(None::<Member<T>>, t, id) implies in_ids(ini, ss, id) by {
         let j = choose|j: int| 0 <= j < t.len() && (#[trigger] t[j]).id == id;
+        lemma_has(t, j); assert(has(s, t[j]));
         let i = choose|i: int| 0 <= i < s.len() && s[i] == t[j];
         assert(s[i].id == id);
     }
@@ -157,9 +160,11 @@ proof fn lemma_c01_order_independent<T: Identity>(s: Seq<Member<T>>, t: Seq<Memb
     let rt = fold_join(None, t).unwrap();
     // rs is knowledge-equal to some s[i] = t[j] <= rt, and symmetrically
     let i = choose|i: int| 0 <= i < s.len() && same_knowledge(#[trigger] s[i], rs);
+    lemma_has(s, i); assert(has(t, s[i]));
     let j = choose|j: int| 0 <= j < t.len() && t[j] == s[i];
     assert(prec_le(t[j], rt));
     let j2 = choose|j: int| 0 <= j < t.len() && same_knowledge(#[trigger] t[j], rt);
+    lemma_has(t, j2); assert(has(s, t[j2]));
     let i2 = choose|i: int| 0 <= i < s.len() && s[i] == t[j2];
     assert(prec_le(s[i2], rs));
     assert(in_ids(ini, ss, rs.id) && in_ids(ini, ss, rt.id));
@@ -202,4 +207,217 @@ proof fn lemma_c01_exchange<T: Identity>(a: Option<Member<T>>, b: Option<Member<
         assert(prec_le(r2, r1)) by { lemma_rank_props(r2.incarnation, r2.state, y.incarnation, y.state); lemma_rank_props(r2.incarnation, r2.state, x.incarnation, x.state); }
         lemma_prec_antisym(r1, r2, ini, ss);
     }
+}
+
+// ---------------------------------------------------------------------------------------------
+// Link to the real code: Foca::apply_many's postcondition [C01.many] says that, for every third-party address `a`, the
+// table record is fold_addr(record before, updates consumed, a).  fold_addr is fold_join over the updates about `a`.
+// ---------------------------------------------------------------------------------------------
+
+// the updates of `s` that are about address `a`, in order
+spec fn about<T: Identity>(s: Seq<Member<T>>, a: T::Addr) -> Seq<Member<T>>
+    decreases s.len()
+{
+    if s.len() == 0 { Seq::empty() }
+    else {
+        let r = about(s.drop_last(), a);
+        if s.last().id.addr_of() == a { r.push(s.last()) } else { r }
+    }
+}
+
+proof fn lemma_fold_addr_is_fold_join<T: Identity>(init: Option<Member<T>>, s: Seq<Member<T>>, a: T::Addr)
+    ensures fold_addr(init, s, a) == fold_join(init, about(s, a))
+    decreases s.len()
+{
+    if s.len() > 0 {
+        lemma_fold_addr_is_fold_join(init, s.drop_last(), a);
+        if s.last().id.addr_of() == a {
+            let r = about(s.drop_last(), a);
+            assert(r.push(s.last()).drop_last() =~= r);
+        }
+    }
+}
+
+proof fn lemma_about_members<T: Identity>(s: Seq<Member<T>>, a: T::Addr)
+    ensures forall|x: Member<T>| #[trigger] has(about(s, a), x) == (has(s, x) && x.id.addr_of() == a)
+    decreases s.len()
+{
+    if s.len() == 0 {
+    } else {
+        let p = s.drop_last();
+        lemma_about_members(p, a);
+        let r = about(p, a);
+        let f = about(s, a);
+        assert forall|x: Member<T>| #[trigger] has(f, x) == (has(s, x) && x.id.addr_of() == a) by {
+            if has(f, x) {
+                let i = choose|i: int| 0 <= i < f.len() && f[i] == x;
+                if i < r.len() {
+                    assert(r[i] == x); lemma_has(r, i);
+                    assert(has(p, x));
+                    let j = choose|j: int| 0 <= j < p.len() && p[j] == x;
+                    assert(s[j] == x);
+                } else {
+                    assert(s[s.len() - 1] == x);
+                }
+            }
+            if has(s, x) && x.id.addr_of() == a {
+                let j = choose|j: int| 0 <= j < s.len() && s[j] == x;
+                if j < p.len() {
+                    assert(p[j] == x); lemma_has(p, j);
+                    assert(has(r, x));
+                    let i = choose|i: int| 0 <= i < r.len() && r[i] == x;
+                    assert(f[i] == x);
+                } else {
+                    assert(f[f.len() - 1] == x);
+                }
+            }
+        }
+    }
+}
+
+// a fold that starts from a known record is the fold over that record followed by the updates
+proof fn lemma_fold_init<T: Identity>(m: Member<T>, s: Seq<Member<T>>)
+    ensures fold_join(Some(m), s) == fold_join(None, seq![m] + s)
+    decreases s.len()
+{
+    let t = seq![m] + s;
+    if s.len() == 0 {
+        assert(t =~= seq![m]);
+        assert(seq![m].drop_last() =~= Seq::<Member<T>>::empty());
+        assert(fold_join(None::<Member<T>>, seq![m].drop_last()) == None::<Member<T>>);
+    } else {
+        lemma_fold_init(m, s.drop_last());
+        assert(t.drop_last() =~= seq![m] + s.drop_last());
+        assert(t.last() == s.last());
+    }
+}
+
+proof fn lemma_about_win_order<T: Identity>(s: Seq<Member<T>>, a: T::Addr)
+    requires win_order(None, s)
+    ensures win_order(None, about(s, a))
+{
+    let sa = about(s, a);
+    lemma_about_members(s, a);
+    assert forall|id: T| in_ids(None::<Member<T>>, sa, id) implies in_ids(None::<Member<T>>, s, id) by {
+        let i = choose|i: int| 0 <= i < sa.len() && (#[trigger] sa[i]).id == id;
+        lemma_has(sa, i);
+        assert(has(s, sa[i]));
+        let j = choose|j: int| 0 <= j < s.len() && s[j] == sa[i];
+        assert(s[j].id == id);
+    }
+}
+
+// L C01.order over the table: starting from an empty table, two deliveries of the same updates (any order, any multiplicity)
+// leave the same knowledge about every address some update mentions - stated over fold_addr, i.e. over what
+// Foca::apply_many is proved to compute  [C01.order]
+proof fn lemma_c01_table_order_independent<T: Identity>(s: Seq<Member<T>>, t: Seq<Member<T>>, a: T::Addr)
+    requires
+        same_elems(s, t),
+        exists|x: Member<T>| has(s, x) && x.id.addr_of() == a,
+        win_order(None, s),
+    ensures
+        fold_addr(None, s, a).is_some() && fold_addr(None, t, a).is_some(),
+        same_knowledge(fold_addr(None, s, a).unwrap(), fold_addr(None, t, a).unwrap()), // [C01.order]
+{
+    let sa = about(s, a);
+    let ta = about(t, a);
+    lemma_about_members(s, a);
+    lemma_about_members(t, a);
+    lemma_fold_addr_is_fold_join(None, s, a);
+    lemma_fold_addr_is_fold_join(None, t, a);
+    let x0 = choose|x: Member<T>| has(s, x) && x.id.addr_of() == a;
+    assert(has(sa, x0));
+    assert(sa.len() > 0);
+    assert(same_elems(sa, ta)) by {
+        assert forall|x: Member<T>| #[trigger] has(sa, x) == has(ta, x) by { assert(has(s, x) == has(t, x)); }
+    }
+    lemma_about_win_order(s, a);
+    lemma_c01_order_independent(sa, ta);
+    lemma_fold_max(None, sa);
+    assert(has(ta, x0));
+    assert(ta.len() > 0);
+    lemma_about_win_order_t(s, t, a);
+    lemma_fold_max(None, ta);
+}
+
+proof fn lemma_about_win_order_t<T: Identity>(s: Seq<Member<T>>, t: Seq<Member<T>>, a: T::Addr)
+    requires same_elems(s, t), win_order(None, s)
+    ensures win_order(None, about(t, a))
+{
+    assert forall|id: T| in_ids(None::<Member<T>>, t, id) implies in_ids(None::<Member<T>>, s, id) by {
+        let j = choose|j: int| 0 <= j < t.len() && (#[trigger] t[j]).id == id;
+        lemma_has(t, j);
+        assert(has(s, t[j]));
+        let i = choose|i: int| 0 <= i < s.len() && s[i] == t[j];
+        assert(s[i].id == id);
+    }
+    assert(win_order(None::<Member<T>>, t));
+    lemma_about_win_order(t, a);
+}
+
+proof fn lemma_has_cons<T>(m: Member<T>, s: Seq<Member<T>>)
+    ensures forall|x: Member<T>| #[trigger] has(seq![m] + s, x) == (x == m || has(s, x))
+{
+    let t = seq![m] + s;
+    assert forall|x: Member<T>| #[trigger] has(t, x) == (x == m || has(s, x)) by {
+        if has(t, x) {
+            let j = choose|j: int| 0 <= j < t.len() && t[j] == x;
+            if j > 0 { assert(s[j - 1] == x); }
+        }
+        if x == m { assert(t[0] == x); }
+        if has(s, x) {
+            let j = choose|j: int| 0 <= j < s.len() && s[j] == x;
+            assert(t[j + 1] == x);
+        }
+    }
+}
+
+// ... and from any table: whatever record `m` an instance holds for address `a`, two deliveries of the same updates leave the
+// same knowledge about `a`  [C01.order]
+proof fn lemma_c01_table_order_independent_from<T: Identity>(m: Member<T>, s: Seq<Member<T>>, t: Seq<Member<T>>, a: T::Addr)
+    requires
+        same_elems(s, t),
+        win_order(Some(m), s),
+    ensures
+        fold_addr(Some(m), s, a).is_some() && fold_addr(Some(m), t, a).is_some(),
+        same_knowledge(fold_addr(Some(m), s, a).unwrap(), fold_addr(Some(m), t, a).unwrap()), // [C01.order]
+{
+    let sa = about(s, a);
+    let ta = about(t, a);
+    lemma_about_members(s, a);
+    lemma_about_members(t, a);
+    lemma_fold_addr_is_fold_join(Some(m), s, a);
+    lemma_fold_addr_is_fold_join(Some(m), t, a);
+    lemma_fold_init(m, sa);
+    lemma_fold_init(m, ta);
+    let s2 = seq![m] + sa;
+    let t2 = seq![m] + ta;
+    lemma_has_cons(m, sa);
+    lemma_has_cons(m, ta);
+    assert(same_elems(s2, t2)) by {
+        assert forall|x: Member<T>| #[trigger] has(s2, x) == has(t2, x) by { assert(has(s, x) == has(t, x)); }
+    }
+    assert forall|id: T| in_ids(None::<Member<T>>, s2, id) implies in_ids(Some(m), s, id) by {
+        let i = choose|i: int| 0 <= i < s2.len() && (#[trigger] s2[i]).id == id;
+        lemma_has(s2, i);
+        if s2[i] != m {
+            assert(has(sa, s2[i]));
+            assert(has(s, s2[i]));
+            let j = choose|j: int| 0 <= j < s.len() && s[j] == s2[i];
+            assert(s[j].id == id);
+        }
+    }
+    assert(win_order(None::<Member<T>>, s2));
+    lemma_c01_order_independent(s2, t2);
+    lemma_fold_max(None, s2);
+    assert(has(t2, m));
+    assert forall|id: T| in_ids(None::<Member<T>>, t2, id) implies in_ids(None::<Member<T>>, s2, id) by {
+        let j = choose|j: int| 0 <= j < t2.len() && (#[trigger] t2[j]).id == id;
+        lemma_has(t2, j);
+        assert(has(s2, t2[j]));
+        let i = choose|i: int| 0 <= i < s2.len() && s2[i] == t2[j];
+        assert(s2[i].id == id);
+    }
+    assert(win_order(None::<Member<T>>, t2));
+    lemma_fold_max(None, t2);
 }
